@@ -167,7 +167,8 @@ def check_pkg(case):
         return None      # C06 speaks about packages that ARE returned (C01 covers rejected valid designs)
     problems = wf_package(pkg)
     if problems:
-        return (f"to_proto.post.wf_package/{problems[0].split(':')[-1].strip().split(' ')[0]}/{desc.split('/')[0]}",
+        tag = desc.split("@")[0] if desc.startswith("faulted/") else desc.split("/")[0]
+        return (f"to_proto.post.wf_package/{problems[0].split(':')[-1].strip().split(' ')[0]}/{tag}",
                 f"{desc}: {problems[0][:300]}", {"design": desc})
     return None
 
